@@ -48,7 +48,7 @@ CHECKS = {
              must_probe=['singular_runs', 'structural_zero_column_runs', 'sing_profile_nonsingular_runs', 'zero_pivot_columns'],
              assumptions=["the structural-rank clause is asserted exactly only where symbolic elimination along the library's own pivot sequence leaves a structurally empty candidate set; rank deficiency that appears as cancellation between computed quantities is counted (inexact_cancellation_class), not asserted"]),
  'C07': dict(seed_offset=7, level='exploration', rule=RULE_A, props=['C07'],
-             batches=[dict(profile='svx', flavour='plain', quick=40000, thorough=2000000), dict(profile='svx', flavour='asan', quick=3000, thorough=100000)],
+             batches=[dict(profile='svx', flavour='plain', quick=40000, thorough=2000000), dict(profile='svx', flavour='asan', quick=3000, thorough=100000), dict(profile='svx', flavour='vblas', quick=8000, thorough=400000)],
              must_probe=['svx_calls_checked', 'svx_equed_1', 'svx_equed_2', 'svx_equed_3', 'svx_contracting_class', 'svx_unrefined_solves_checked', 'svx_trans_2_NC_fact2', 'svx_trans_1_NR_fact1']),
  'C12': dict(seed_offset=12, level='exploration', rule=RULE_A, props=['C12'],
              batches=[dict(profile='svx', flavour='plain', quick=40000, thorough=2000000), dict(profile='strf', flavour='plain', quick=24000, thorough=1200000)],
